@@ -259,6 +259,19 @@ func applyAlias(node *CandidateNode, alias *CandidateNode, aliasIndex int, newCo
 		keyNode := alias.Content[index]
 		log.Debugf("applying alias key %v", keyNode.Value)
 		valueNode := alias.Content[index+1]
+		if isMergeKey(keyNode) {
+			// the merged map merges other maps itself: bring those in, not a literal << entry
+			if valueNode.Kind == SequenceNode {
+				for nested := len(valueNode.Content) - 1; nested >= 0; nested = nested - 1 {
+					if err := applyAlias(node, valueNode.Content[nested].Alias, aliasIndex, newContent); err != nil {
+						return err
+					}
+				}
+			} else if err := applyAlias(node, valueNode.Alias, aliasIndex, newContent); err != nil {
+				return err
+			}
+			continue
+		}
 		err := overrideEntry(node, keyNode, valueNode, aliasIndex, newContent)
 		if err != nil {
 			return err
